@@ -137,14 +137,31 @@ def random_cases(ctx):
             case['stored'] = num()
         if rng.random() < 0.25:
             # insert 'put' without its value somewhere
-            case['seq'].insert(rng.randrange(len(seq) + 1), ['put_novalue', None])
+            case['seq'].insert(rng.randrange(len(seq) + 1),
+                               [rng.choice(['put_novalue', 'cond_put_novalue']), None])
+        if rng.random() < 0.2:
+            case['seq'].insert(rng.randrange(len(seq) + 1), ['cond', num()])
+        if rng.random() < 0.1:
+            case['write_fail'] = True       # persistent, but the storage refuses its writes
         yield case
 
 
 def run_batch(batch, ctx):
     """Run a batch of cases in one simulation; one Counter per case."""
     import edzed
-    storage = harness.Storage()
+    class FlakyStorage(harness.Storage):
+        """Writes of the listed keys fail (disk full, value cannot be serialised ...)."""
+        fail_keys = set()
+
+        def __setitem__(self, key, value):
+            if key in self.fail_keys:
+                ctx.count('failed_storage_writes')
+                raise OSError(f"vf: cannot write {key!r}")
+            super().__setitem__(key, value)
+
+    storage = FlakyStorage()
+    storage.fail_keys = {f"<Counter 'c{i}'>" for i, case in enumerate(batch)
+                         if case.get('write_fail')}
     for i, case in enumerate(batch):
         if 'stored' in case:
             dict.__setitem__(storage, f"<Counter 'c{i}'>", dec(case['stored']))
@@ -159,7 +176,8 @@ def run_batch(batch, ctx):
             if case['mod'] is not None:
                 kw['modulo'] = case['mod']
             blocks.append(edzed.Counter(
-                f"c{i}", initdef=dec(case['initdef']), persistent='stored' in case, **kw))
+                f"c{i}", initdef=dec(case['initdef']),
+                persistent='stored' in case or bool(case.get('write_fail')), **kw))
         return blocks
 
     async def drive(sim, blocks):
@@ -178,7 +196,10 @@ def run_batch(batch, ctx):
     if out['exc'] is not None and not isinstance(out['exc'], vloop.Deadlock):
         raise out['exc']
     if not out.get('started'):
-        raise core.Inconclusive(f"C20 batch did not start: {out['sim'].init_exc}")
+        ctx.violation(batch[0], 'startup-failed',
+                      f"a circuit of {len(batch)} Counter blocks with valid arguments did not "
+                      f"start: {out['sim'].init_exc} / {out['sim'].circuit.error!r}")
+        return
     for i, case in enumerate(batch):
         if done[i]:
             ctx.case_done(case, True, sample={'modulo': case['mod'], 'initdef': case['initdef'],
@@ -213,11 +234,29 @@ def check_one(case, blk, sim, ctx):
                 f"modulo={mod} initdef={sr(initdef)}: initial output {sr(blk.output)}, expected {sr(v)}")
     for k, (op, arg) in enumerate(case['seq']):
         arg = dec(arg)
-        if op == 'put_novalue':
+        if op == 'cond':
+            # conditional event type: 'put' when the value is true, 'dec' otherwise
+            v = ref_apply(v, 'put', arg, mod, initdef) if arg else ref_apply(v, 'dec', None, mod, initdef)
+            ctx.count('conditional_events')
+            try:
+                ret = blk.event(edzed.EventCond('put', 'dec'), value=arg, source='vf')
+            except Exception as err:    # pylint: disable=broad-except
+                raise core.Violation('event-raised-cond', f"EventCond('put','dec') value={sr(arg)}: {err!r}")
+            if not same(ret, v, mod) or not same(blk.output, v, mod):
+                raise core.Violation(
+                    'return-value-cond',
+                    f"modulo={mod} event #{k} EventCond('put','dec') with value {sr(arg)}: returned "
+                    f"{sr(ret)}, output {sr(blk.output)}, reference {sr(v)}")
+            continue
+        if op in ('put_novalue', 'cond_put_novalue'):
             ctx.count('put_without_value_checked')
             before = blk.output
             try:
-                ret = edzed.ExtEvent(blk, 'put').send()
+                if op == 'cond_put_novalue':
+                    # no 'value' item: the condition is false -> 'put', which lacks its value
+                    ret = blk.event(edzed.EventCond('inc', 'put'), source='vf')
+                else:
+                    ret = edzed.ExtEvent(blk, 'put').send()
             except TypeError:
                 pass
             except Exception as err:
